@@ -225,7 +225,7 @@ func (s *svSession) returned() bool {
 
 func svStart(srv *Server, hs *http.Server, h http.Handler) *svSession {
 	DebugGoroutines = false
-	vThreads()
+	vSchedulePolicy(vRange("schedulePolicy", 0, 2)) // thread mode, under each of the three scheduling policies
 	s := &svSession{c: newSvConn(), srv: srv, done: make(chan struct{})}
 	ctx, md := metadata.NewContext(context.Background())
 	s.md = md
